@@ -213,6 +213,13 @@ def validate_batch(module, cfg, trace, label, max_violations=6, strict_budget=6,
             runs.append(cur)
         elif cur is not None:
             cur.append(ln)
+    # runs the harness itself flagged (a waiter left stuck, a state that never settled, ...) are validated first: a
+    # rejected run makes TLC exhaust everything before it in the same pass, so suspects belong at the front. The flag
+    # only orders the work; the specification still decides every run.
+    def _flagged(r):
+        head = r[0]
+        return '"unsettled":true' in head or '"suspect":true' in head or '"stuck":true' in head
+    runs = [r for r in runs if _flagged(r)] + [r for r in runs if not _flagged(r)]
     total_runs = len(runs)
     res = {"runs": total_runs, "events": len(lines) - total_runs, "strict_accepted": 0, "lenient_accepted": 0,
            "divergences": [], "violations": [], "tlc_states": 0, "wall_s": 0.0, "deviations": {}, "unvalidated": 0}
